@@ -30,6 +30,8 @@ import (
 //   G3  x is the result of expectNext(tr, k1…kn): its length is n on every
 //       return of expectNext (contract checked on expectNext itself);
 //   G4  the index is the key of an enclosing `range a` and x := make(T, len(a));
+//   G7  x, err := r.Peek(K) on a *bufio.Reader, followed at once by
+//       `if err != nil {…return}`: Peek returns K bytes exactly when err is nil;
 //   G5  x is a parameter: the bound must be proven at every call site of the
 //       function for the argument passed there.
 //
@@ -432,6 +434,17 @@ func (bc *boundsChecker) prove(s *boundSite) (proof string, why string) {
 							return fmt.Sprintf("G3 expectNext with %d kinds", n), ""
 						}
 					}
+					// G7: x, err := r.Peek(K) followed at once by `if err != nil
+					// {…return}`: bufio's Peek returns K bytes exactly when err is nil
+					if n, ok := bc.peekLen(st, xs); ok && j+1 < at+1 && j+1 < len(list) {
+						if ifs, isIf := list[j+1].(*ast.IfStmt); isIf && ifs.Else == nil && ifs.Init == nil && terminates(ifs.Body) && len(st.Lhs) == 2 {
+							if be, isB := ast.Unparen(ifs.Cond).(*ast.BinaryExpr); isB && be.Op == token.NEQ && wire.Canon(be.X) == wire.Canon(st.Lhs[1]) && wire.Canon(be.Y) == "nil" {
+								if s.idx == nil && s.k < n && !bc.killed(fd, s, st.End(), sitePos) {
+									return fmt.Sprintf("G7 Peek(%d) with its error tested", n), ""
+								}
+							}
+						}
+					}
 				}
 			}
 		}
@@ -596,14 +609,121 @@ func (bc *boundsChecker) expectNextLen(as *ast.AssignStmt, xs string) (int, bool
 		return 0, false
 	}
 	call, ok := as.Rhs[0].(*ast.CallExpr)
-	if !ok || call.Ellipsis.IsValid() {
+	if !ok {
 		return 0, false
 	}
 	callee := load.Callee(bc.info, call)
 	if callee == nil || !bc.expectN[types.Object(callee)] {
 		return 0, false
 	}
+	if call.Ellipsis.IsValid() {
+		// expectNext(tr, kinds...): at least as many slots as kinds is known to
+		// hold when it is built in this function, in straight-line code
+		return bc.minBuiltLen(call.Args[len(call.Args)-1], call.Pos())
+	}
 	return len(call.Args) - 1, true
+}
+
+// minBuiltLen is a lower bound on the length of a local slice at pos: the
+// variable is defined once by make([]T, n[, c]) or a composite literal in the
+// top-level statements of its function, and every other assignment before pos
+// is x = append(x, …) in those top-level statements (an append never shortens).
+func (bc *boundsChecker) minBuiltLen(x ast.Expr, pos token.Pos) (int, bool) {
+	id, ok := ast.Unparen(x).(*ast.Ident)
+	if !ok {
+		return 0, false
+	}
+	o, ok := bc.info.ObjectOf(id).(*types.Var)
+	if !ok {
+		return 0, false
+	}
+	var fd *ast.FuncDecl
+	for _, d := range bc.funcs {
+		if d.Body != nil && d.Body.Pos() <= o.Pos() && o.Pos() < d.Body.End() {
+			fd = d
+		}
+	}
+	if fd == nil {
+		return 0, false
+	}
+	isX := func(e ast.Expr) bool {
+		i, ok := ast.Unparen(e).(*ast.Ident)
+		return ok && bc.info.ObjectOf(i) == types.Object(o)
+	}
+	n, defined, okAll := 0, false, true
+	top := map[ast.Stmt]bool{}
+	for _, st := range fd.Body.List {
+		top[st] = true
+	}
+	ast.Inspect(fd.Body, func(k ast.Node) bool {
+		switch y := k.(type) {
+		case *ast.AssignStmt:
+			for i, l := range y.Lhs {
+				if !isX(l) {
+					continue
+				}
+				if !top[y] || len(y.Lhs) != len(y.Rhs) || y.Pos() >= pos {
+					okAll = false
+					continue
+				}
+				switch r := ast.Unparen(y.Rhs[i]).(type) {
+				case *ast.CompositeLit:
+					if defined {
+						okAll = false
+					}
+					defined, n = true, len(r.Elts)
+				case *ast.CallExpr:
+					fn, _ := ast.Unparen(r.Fun).(*ast.Ident)
+					switch {
+					case fn != nil && fn.Name == "make" && len(r.Args) >= 2 && !defined:
+						tv := bc.info.Types[r.Args[1]]
+						v, isInt := int64(0), false
+						if tv.Value != nil {
+							v, isInt = constant.Int64Val(tv.Value)
+						}
+						if !isInt || v < 0 {
+							okAll = false
+						}
+						defined, n = true, int(v)
+					case fn != nil && fn.Name == "append" && len(r.Args) >= 1 && isX(r.Args[0]) && defined:
+						if !r.Ellipsis.IsValid() {
+							n += len(r.Args) - 1
+						}
+					default:
+						okAll = false
+					}
+				default:
+					okAll = false
+				}
+			}
+		case *ast.UnaryExpr:
+			if y.Op == token.AND && isX(y.X) {
+				okAll = false
+			}
+		case *ast.SliceExpr:
+			if isX(y.X) {
+				okAll = false
+			}
+		}
+		return true
+	})
+	return n, defined && okAll
+}
+
+// peekLen: `x, err := r.Peek(K)` on a *bufio.Reader with constant K.
+func (bc *boundsChecker) peekLen(as *ast.AssignStmt, xs string) (int, bool) {
+	if len(as.Lhs) != 2 || len(as.Rhs) != 1 || wire.Canon(as.Lhs[0]) != xs {
+		return 0, false
+	}
+	call, ok := as.Rhs[0].(*ast.CallExpr)
+	if !ok || len(call.Args) != 1 {
+		return 0, false
+	}
+	callee := load.Callee(bc.info, call)
+	if callee == nil || callee.Name() != "Peek" || callee.Pkg() == nil || callee.Pkg().Path() != "bufio" {
+		return 0, false
+	}
+	return constInt(bc.info, call.Args[0])
 }
 
 // madeWithLenOf: x := make(T, len(a)) is the only definition of x before pos.
@@ -805,6 +925,10 @@ func checkParserBounds(c *core.Ctx, p *load.Prog, rule string) {
 				c.Undecide("%s: %s at %s indexes a slice the function builds itself; its length is a program invariant the rule has no idiom for", name, s.what, p.Pos(s.node.Pos()))
 				return true
 			}
+			if proof == "" && bc.fromSpreadExpect(fd, s.x) {
+				c.Undecide("%s: %s at %s indexes the result of an expectNext-style call whose kinds are passed as a slice (kinds...) the rule cannot size", name, s.what, p.Pos(s.node.Pos()))
+				return true
+			}
 			counts[name+"\x00"+s.what]++
 			key := fmt.Sprintf("%s: %s in bounds (#%d)", name, s.what, counts[name+"\x00"+s.what])
 			recs = append(recs, rec{key: key, pos: p.Pos(s.node.Pos()), ok: proof != "", why: why + " — the token counts and token text are chosen by the input, so this is an input on which ReadFile panics"})
@@ -893,4 +1017,32 @@ func (bc *boundsChecker) freshSlice(e ast.Expr, o *types.Var) bool {
 		}
 	}
 	return false
+}
+
+// fromSpreadExpect: x is defined in fd by a call with the expectNext contract
+// whose kinds are passed as a spread slice.
+func (bc *boundsChecker) fromSpreadExpect(fd *ast.FuncDecl, x ast.Expr) bool {
+	id, ok := ast.Unparen(x).(*ast.Ident)
+	if !ok {
+		return false
+	}
+	o := bc.info.ObjectOf(id)
+	found := false
+	ast.Inspect(fd.Body, func(n ast.Node) bool {
+		as, ok := n.(*ast.AssignStmt)
+		if !ok || len(as.Rhs) != 1 || len(as.Lhs) == 0 {
+			return true
+		}
+		lid, ok := ast.Unparen(as.Lhs[0]).(*ast.Ident)
+		if !ok || bc.info.ObjectOf(lid) != o {
+			return true
+		}
+		if call, ok := ast.Unparen(as.Rhs[0]).(*ast.CallExpr); ok && call.Ellipsis.IsValid() {
+			if callee := load.Callee(bc.info, call); callee != nil && bc.expectN[types.Object(callee)] {
+				found = true
+			}
+		}
+		return true
+	})
+	return found
 }
